@@ -143,6 +143,9 @@ class Engine:
             if isinstance(v, (ast.Tuple, ast.List)):
                 ent = []
                 for e in v.elts:
+                    if isinstance(e, ast.Tuple) and len(e.elts) == 2 and \
+                            isinstance(e.elts[0], ast.Constant):
+                        e = e.elts[1]
                     r = self.model.resolve_name_expr(m, e)
                     if not r or r[0] != 'func':
                         ent = None
